@@ -56,7 +56,7 @@ class World:
         """Put a random non-empty (or empty) content into slot x (state shaping, not judged)."""
         th = thermo()
         kind = rng.choice(['l', 'l', 'g', 'lN2', 'multi', 'empty'])
-        T = rng.choice([290., 310., 330., 350.])
+        T = rng.choice([290., 310., 330., 350., 298.15])
         P = rng.choice([101325., 202650., 50000., 1e6])
         if kind == 'empty':
             self.s[x] = tmo.Stream(None, thermo=th, T=T, P=P)
@@ -68,6 +68,51 @@ class World:
             self.s[x] = tmo.Stream(None, thermo=th, T=T, P=P, phase='g', N2=rng.choice([1, 10]))
         else:
             self.s[x] = tmo.MultiStream(None, thermo=th, T=rng.choice([350., 365.]), P=101325., l=[('Water', 5), ('Ethanol', 2)], g=[('Ethanol', 3), ('Water', 1)])
+
+    def mix_reach(self, r, ins, Q):
+        """whether sum H_in + Q lies between the enthalpies of the mixed material at the ends of the model range"""
+        try:
+            ne = [self.s[i] for i in ins if not self.s[i].isempty()]
+            if not ne:
+                return True
+            H = sum(i.H for i in ne) + Q * HUNIT
+            c = self.s[r].copy()
+            c.mix_from([i.copy() for i in ne], energy_balance=False)
+            c.T = T_LO
+            lo = c.H
+            c.T = T_HI
+            return bool(lo <= H <= c.H)
+        except Exception:
+            return False
+
+    def sep_reach(self, x, y):
+        """whether H(x) - H(y) lies between the enthalpies of the remaining material at the ends of the model range"""
+        try:
+            c = self.s[x].copy()
+            H_new = c.H - self.s[y].H
+            c.separate_out(self.s[y], energy_balance=False)
+            if c.isempty():
+                return True
+            c.T = T_LO
+            lo = c.H
+            c.T = T_HI
+            return bool(lo <= H_new <= c.H)
+        except Exception:
+            return False
+
+    def feed_part(self, y, x, rng):
+        """Put into slot y a part of the material of slot x (so that separating y out of x is feasible), in the same or
+        the other phase, at the same or another temperature (state shaping, not judged)."""
+        src = self.s[x]
+        if src.isempty() or len(src.phases) > 1:
+            return False
+        f = rng.choice([0.01, 0.05, 0.2])
+        ph = rng.choice(['l', 'g']) if src.imol['N2'] == 0 else 'g'      # liquid nitrogen is outside the models' range
+        T = rng.choice([src.T, src.T, 400., 320.])
+        new = tmo.Stream(None, thermo=thermo(), T=T, P=src.P, phase=ph)
+        new.mol[:] = src.mol * f
+        self.s[y] = new
+        return True
 
     def apply(self, op, a, rng=None):
         S = self.s
@@ -128,14 +173,17 @@ def random_op(rng, w, names=NAMES, last_mix=None):
         r, ins = last_mix
         ys = [i for i in ins if i != r]
         if ys:
-            return 'separate', dict(x=r, y=rng.choice(ys))
+            y = rng.choice(ys)
+            return 'separate', dict(x=r, y=y, reach=w.sep_reach(r, y))
     op = rng.choice(['mix'] * 6 + ['set_H'] * 3 + ['set_h', 'set_S', 'set_S', 'set_same_H', 'set_same_h', 'set_same_S'])
     if op == 'mix':
-        return op, dict(r=x, ins=[rng.choice(names) for _ in range(rng.randint(0, 3))], Q=rng.choice([0, 0, 100000, -50000, 2500000]))
+        ins = [rng.choice(names) for _ in range(rng.randint(0, 3))]
+        Q = rng.choice([0, 0, 100000, -50000, 2500000, 3000, -700])
+        return op, dict(r=x, ins=ins, Q=Q, reach=w.mix_reach(x, ins, Q))
     if op in ('set_H', 'set_h', 'set_S'):
         # C02 quantifies over targets between the stream's values at the ends of the model range: pick the target as the
         # value at a temperature Tt drawn from (occasionally beyond) that range; `reach` tells the spec whether it is inside
-        Tt = rng.choice([rng.uniform(T_LO, T_HI), rng.uniform(T_LO, T_HI), rng.uniform(T_LO, T_HI), rng.uniform(150., 700.),
+        Tt = rng.choice([rng.uniform(T_LO, T_HI), rng.uniform(T_LO, T_HI), rng.uniform(T_LO, T_HI), rng.uniform(150., 700.), 298.15,
                          w.s[x].T + rng.choice([-1, 1]) * rng.choice([0.01, 0.5, 5.])])
         if w.s[x].isempty():
             return op, dict(x=x, v=0, reach=False)
